@@ -11,11 +11,7 @@ def check_bases(ctx, res, config="all"):
         if not st["path"].endswith("::BASES") or "bytes" not in st:
             continue
         parent = st.get("parent", "")
-        if parent.endswith("get_radix_base"):
-            mx = (1 << 64) - 1
-        elif parent.endswith("get_half_radix_base"):
-            mx = (1 << 32) - 1
-        else:
+        if not (parent.endswith("get_radix_base") or parent.endswith("get_half_radix_base")):
             res.note("static %s has an unknown role" % st["path"])
             continue
         found += 1
@@ -23,6 +19,9 @@ def check_bases(ctx, res, config="all"):
         es = st["elem_size"]
         offs = st["elem_field_offsets"]
         szs = st["elem_field_sizes"]
+        # the digit width is the size of the table's first field (u64 digits on 64-bit targets, u32 digits otherwise)
+        digit_bits = 8 * szs[0]
+        mx = (1 << digit_bits) - 1 if parent.endswith("get_radix_base") else (1 << (digit_bits // 2)) - 1
         n = len(raw) // es
         bad = []
         if n != 257:
@@ -323,7 +322,10 @@ def check_serde_tables(ctx, res, config="all"):
         for l, nm, ln in named:
             groups.setdefault(l, []).append(ln)
         same = [l for l, lns in groups.items() if len(lns) >= 2]
-        if same:
+        if not any(callee_name(t) == "serialize_seq" for i, t in b.calls()):
+            # 32-bit digits: the digit slice is already the u32 sequence and is serialised as such
+            res.ok("R7-serde-len-agrees", "Serialize for BigUint", {"form": "forwards the digit slice (32-bit digits)"}, nontrivial=False)
+        elif same:
             res.ok("R7-serde-len-agrees", "Serialize for BigUint", {"tested_local": b.locals[same[0]].get("name"), "uses": len(groups[same[0]])})
         else:
             res.fail(Finding("R7-serde-len-agrees", "Serialize for BigUint", "the declared sequence length and the conditional emission of the last high u32 do not test the same value", b))
